@@ -102,7 +102,7 @@ fn prepare(c: &AstCase, obs: &mut Obs, use_kf1: bool, which: Which) -> Result<Op
         }
         let idx = lt.text.iter().zip(lt.fate.iter()).take(l).filter(|(t, f)| **f == Fate::Kept && !is_blank(t)).count();
         kf1_line = Some(idx);
-        obs.excluded("KF1:first-line-indented-ready-tag(indentation of one line not asserted)");
+        obs.excluded("KF1:first-line-indented-ready-tag-adjacent-removal(indentation of one line not asserted)");
     }
     let out = match call_clean(&r.src, &cfg) {
         Ok(o) => o,
@@ -585,12 +585,12 @@ pub fn check(ctx: &mut Ctx, id: &'static str) {
         "C12" => Which::C12,
         _ => Which::C13,
     };
-    let kf1 = ctx.is_known("first-line-indented-ready-tag");
+    let kf1 = ctx.is_known("first-line-indented-ready-tag-adjacent-removal");
     let kf_adjacent = ctx.is_known("adjacent-removed-parts");
     let kf_blank = ctx.is_known("blank-lines-on-both-sides");
     ctx.assume("documents are block-style: every tag stands alone on its line; the text contains no delimiter characters outside tags");
     if kf1 {
-        ctx.assume("known finding KF1 (line 1 is an indented ready opening tag) is excluded by its input signature and counted");
+        ctx.assume("known finding KF1 (line 1 is an indented ready opening tag whose removal is directly followed by another removal) is excluded by its input signature and counted");
     }
     ctx.replay_corpus(|sub, case, obs| replay(id, sub, case, obs));
     ctx.run_known_witnesses(|sub, case, obs| replay_strict(id, sub, case, obs));
@@ -662,7 +662,7 @@ fn dispatch(id: &str, c: &AstCase, obs: &mut Obs, kf1: bool) -> Verdict {
         "C11" => {
             let known = load_known("C11");
             let has = |sig: &str| kf1 && known.iter().any(|k| k.signature == sig);
-            oracle_c11_kf(c, obs, has("first-line-indented-ready-tag"), false, has("adjacent-removed-parts"), has("blank-lines-on-both-sides"))
+            oracle_c11_kf(c, obs, has("first-line-indented-ready-tag-adjacent-removal"), false, has("adjacent-removed-parts"), has("blank-lines-on-both-sides"))
         }
         "C12" => oracle_c12(c, obs, kf1, false),
         _ => oracle_c13(c, obs, kf1, false),
@@ -672,7 +672,7 @@ fn dispatch(id: &str, c: &AstCase, obs: &mut Obs, kf1: bool) -> Verdict {
 pub fn replay(id: &str, sub: &str, case: &Value, obs: &mut Obs) -> Result<Verdict, String> {
     if id == "C12" && sub == "inline-in-bodies" {
         let known = load_known("C12");
-        let kf1 = known.iter().any(|k| k.signature == "first-line-indented-ready-tag");
+        let kf1 = known.iter().any(|k| k.signature == "first-line-indented-ready-tag-adjacent-removal");
         let kf7 = known.iter().any(|k| k.signature == "inline-removal-at-line-start-below-blank-line");
         return replay_case::<AstCase, _>(case, obs, |c, obs| {
             obs.eval();
